@@ -30,7 +30,7 @@ ASSUMPTIONS = ['receptive-field / dilation parameters are driven only on Conv1d 
 
 def bounds(tier):
     return {'quick': {'K_kmax': 12, 'G_depth': 2, 'uniform_value_combos': '343 (K with k <= 4 or k = 12) / 64 (other K, G)', 'abstract_deviation_bound': 1, 'representatives': 4},
-            'thorough': {'K_kmax': 12, 'G_depth': 3, 'uniform_value_combos': 343, 'abstract_deviation_bound': 2, 'representatives': 4}}[tier]
+            'thorough': {'K_kmax': 12, 'G_depth': 3, 'uniform_value_combos': '343 (K) / 64 (G)', 'abstract_deviation_bound': 2, 'representatives': 4}}[tier]
 
 
 def cases(tier, seed):
@@ -56,8 +56,11 @@ def cases(tier, seed):
                         if bn and k in (1, 4, 12):
                             out.append({'prog': p, 'fold_bn': True})
     progs = list(G.gen_base(2 if tier == 'quick' else 3))
-    for p in G.gen_base(1 if tier == 'quick' else 2):
+    for p in G.gen_base(1):
         progs += [q for q in G.option_deviations(p) if tier == 'thorough' or q['dim'] == 1 or q['head']['kind'] == 'flatlin']
+    if tier == 'thorough':
+        # option deviations on the depth-2 programs of the 1D grammar with the flatten head (the time-mask machinery is 1D only)
+        progs += [q for p in G.gen_base(2, dims=(1,)) if len(p['stages']) == 2 and p['head']['kind'] == 'flatlin' for q in G.option_deviations(p)]
     progs += G.gen_special()
     for p in progs:
         if G.structure_flags(p):
@@ -157,7 +160,7 @@ def run_case(case, seed):
     only = case.get('only')
     # (a) uniform raw values
     kk = prog['stages'][-1].get('k', 3) if prog.get('family') == 'K' else None
-    reps = REPS if tier == 'thorough' or (kk is not None and (kk <= 4 or kk == 12)) else REPS_SMALL
+    reps = REPS if (kk is not None and (tier == 'thorough' or kk <= 4 or kk == 12)) else REPS_SMALL
     combos = itertools.product(reps, reps if tms else [None], reps if tms else [None])
     for va, vb, vg in combos:
         label = {'uniform': [va, vb, vg]}
@@ -174,7 +177,7 @@ def run_case(case, seed):
     # (b) abstract lattice x representatives
     cfgs, complete = D.enum_configs(els, b['abstract_deviation_bound'], 0)
     for cfg in cfgs:
-        for rep in range(b['representatives'] if (tier == 'thorough' or prog.get('family') == 'K') else 2):
+        for rep in range(b['representatives'] if prog.get('family') == 'K' else 2):
             label = {'cfg': D.describe(els, cfg), 'rep': rep}
             if only is not None and only != label:
                 continue
